@@ -1096,8 +1096,8 @@ func (s *SSEServer) sendSuccessResponse(requestID interface{}, result interface{
 		Result:  result,
 	}
 
-	// Serialize full response.
-	fullResponseData, err := json.Marshal(response)
+	// Serialize full response (an unencodable result is answered with an internal error).
+	fullResponseData, err := marshalResponseOrError(response)
 	if err != nil {
 		s.logger.Errorf("Error encoding full response: %v", err)
 		return
